@@ -162,7 +162,14 @@ func (c *ServerChannel) sendEstablishedSession(ctx context.Context, node Node) e
 		},
 		State: SessionStateEstablished,
 	}
-	return c.sendSession(ctx, &ses)
+	err := c.sendSession(ctx, &ses)
+	if err != nil {
+		// The established session did not reach the remote party, so there is no established
+		// session: the senders that were held back should be refused, instead of writing
+		// their envelopes to a remote party that was not told that the session is established.
+		c.setStateWLock(SessionStateFailed)
+	}
+	return err
 }
 
 // DomainRole indicates the role of an identity in a domain.
